@@ -153,7 +153,7 @@ def resume_wire(resume, box, line_of):
         # {0: <intra-line resume>} : index is the line box
         if sub is None:
             return ['n', index, 'none']
-        return ['n', index, ['l', line_of[(box['id'], repr(sub))]]]
+        return ['n', index, ['l', line_of.get((box['id'], repr(sub)), 'unknown')]]
     child = box['kids'][index] if index < len(box['kids']) else None
     if sub is None or child is None:
         return ['n', index, 'none']
